@@ -1626,7 +1626,11 @@ func TestVerifC23(t *testing.T) {
 				if _, err := BC.UnmarshalFromBytes(in, out.Interface()); err == nil {
 					var got c23S3
 					if _, err := BC.UnmarshalFromBytes(cb, &got); err != nil || got.A != 7 || string(got.B) != "hello" {
-						r.Violation("pooled-decoder-poisoned:replay", fmt.Sprintf("input=%x target=%s next decode: %+v err=%v", in, tg.name, got, err), c)
+						sig := "pooled-decoder-poisoned:" + tg.name
+						if n, _, st := c23Parse(in); (st == c23OK || st == c23BadKids) && c23NilInStructField(tg.t, n) {
+							sig = "pooled-decoder-poisoned:nil-marker-in-struct-field"
+						}
+						r.Violation(sig, fmt.Sprintf("input=%x target=%s next decode: %+v err=%v", in, tg.name, got, err), c)
 					}
 				}
 				r.Eval(1)
